@@ -1,6 +1,7 @@
 import Cfi.Files
 import Spec.C04
 import Proofs.Lines
+import Proofs.RegexInfix
 /-! C04 — property theorems (loop refinement). -/
 namespace Props.C04
 open Cfi Cfi.Text Spec.C04
@@ -136,5 +137,32 @@ example :
     let rB : RegDef := ⟨"B".toList, 3, [], .none⟩
     classifyText [rA, rB] "ABx\n".toList = some 0 ∧ classifyText [rB, rA] "ABx\n".toList = some 0 ∧
     classifyText [rA, rB] "xB\n".toList = some 1 ∧ classifyText [rA, rB] "xxxB\n".toList = none := by decide
+
+/-- the identifier of a register type is found in the window of a line: some part of the first
+`IDENTIFIER_DIGITS` characters is the identifier text -/
+def IdentFound (r : RegDef) (l : List Char) : Prop := ∃ a b, l.take r.digits = a ++ r.ident ++ b
+
+/-- `Register.matches` is `re.search(IDENTIFIER, line[:IDENTIFIER_DIGITS])`: the model's infix test equals
+the search of the literal pattern in the declarative regular-expression semantics
+(`Cfi.Regex.search_iff`, `matches_lit_iff`) -/
+theorem matches_is_search (r : RegDef) (l : List Char) :
+    r.matchesText l = Cfi.Regex.search '\n' ⟨false, Cfi.Regex.Re.lit r.ident⟩ (l.take r.digits) :=
+  Proofs.RegexInfix.matchesText_eq_search r l
+
+theorem matches_iff_found (r : RegDef) (l : List Char) : r.matchesText l = true ↔ IdentFound r l :=
+  Proofs.RegexInfix.isInfix_iff r.ident (l.take r.digits)
+
+/-- **First matching type wins, in terms of what the identifiers mean**: the type chosen for a line is
+the first declared one whose identifier text occurs in its window of the line; no earlier declared
+type's identifier occurs in its own window -/
+theorem classify_first_found (regs : List RegDef) (l : List Char) (i : Nat)
+    (h : classifyText regs l = some i) :
+    (∃ r, regs[i]? = some r ∧ IdentFound r l) ∧
+    ∀ j r', j < i → regs[j]? = some r' → ¬ IdentFound r' l := by
+  obtain ⟨⟨r, hr, hm⟩, hlt⟩ := classify_first regs l i h
+  refine ⟨⟨r, hr, (matches_iff_found r l).1 hm⟩, fun j r' hj hr' hf => ?_⟩
+  have := hlt j r' hj hr'
+  rw [(matches_iff_found r' l).2 hf] at this
+  cases this
 
 end Props.C04
